@@ -77,6 +77,7 @@ def main():
             ctx.agg.notes.append({"line_coverage_of_repo_in_last_shard": rep})
         except Exception as e:
             ctx.agg.notes.append({"coverage_error": repr(e)[:100]})
+    ctx.agg.hist("evaluations_by_environment", os.environ.get("VERIF_ENVIRONMENT", "default"), ctx.agg.evaluations)
     if monitor.RECORDER_HITS:
         ctx.agg.notes.append({"recorder_hits": monitor.RECORDER_HITS[:5]})
     with open(out, "w") as f:
